@@ -1,3 +1,14 @@
 """What is claimed in MANIFEST.json (regenerate with ./tools_manifest.py)."""
-CLAIMS = {}
+
+TRUST = "CPython ast; the analyser's transfer functions (unit-tested in setup_cmd, exercised both ways by sa/corpus); "
+
+CLAIMS = {
+    "C03": {
+        "text": "Decides, for every path of _Packet.decode at once, that a decoded frame is only returned after a full-width "
+                "keyed-MD5 equality whose operands partition the packet, that the plaintext derives only from signed bytes and "
+                "that rejections are ProtocolErrors. Structural necessary conditions of the property; collision resistance is trusted.",
+        "note": TRUST + "keyed MD5 changes when any covered bit changes",
+        "technique": "value-flow terms + path-condition dominance on the ast (static analysis)",
+    },
+}
 NOT_APPLICABLE = {}
